@@ -1171,4 +1171,263 @@ Section Main.
         * eexists. split; [cbn [names_of]; rewrite Hcl, <- Hown; reflexivity|exact Hns].
         * intros T He Hp t Hr ft nn. cbn [Gs]. apply (HG T He Hp t Hr (S ft) nn). discriminate.
   Qed.
+
+  (* ---------------------------------------------------------------- definitions *)
+  Local Notation san d := (Sanitize.sanitize cls d Sanitize.Pascal).
+
+  Lemma def_all_names_spec d sch :
+    incl (san d :: names_of cls sch (NRequired d)) (def_all_names cls (d, sch)) /\
+    (NoDup (def_all_names cls (d, sch)) -> NoDup (names_of cls sch (NRequired d))).
+  Proof.
+    unfold def_all_names. cbn [fst snd].
+    destruct (names_of cls sch (NRequired d)) as [|m r] eqn:Hn.
+    - split; [apply incl_refl|]. intros _. constructor.
+    - destruct (match classify_s sch with
+                | Some (false, KEnum _) | Some (false, KStruct _) => true | _ => false end) eqn:Htop.
+      + split; [|intro H; exact H].
+        assert (Hm : m = san d).
+        { destruct sch as [b|ty fmt enum cst nv sv ik items ai mni mxi uq props req ap mnp mxp allo anyo oneo no ref dflt title];
+            [discriminate|].
+          cbn [classify_s] in Htop. cbn [names_of] in Hn.
+          destruct (classify _ _ _ _ _ _ _ _ _ _ _ _ _ _ _ _ _ _ _ _ _ _ _ _) as [[[|] k]|]; try discriminate.
+          destruct k; try discriminate; cbn [own_names type_name name_opt option_map app] in Hn;
+            injection Hn as <- _; reflexivity. }
+        subst m. intros x [<-|Hx]; [left; reflexivity|exact Hx].
+      + split; [apply incl_refl|]. intro H. inversion H; assumption.
+  Qed.
+
+  Lemma conv_top_named nm s0 te s1 sch :
+    cvf sch nm s0 = Some (te, s1) ->
+    match classify_s sch with
+    | Some (false, KEnum _) | Some (false, KStruct _) => det_name te <> None
+    | _ => True
+    end.
+  Proof.
+    destruct sch as [b|ty fmt enum cst nv sv ik items ai mni mxi uq props req ap mnp mxp allo anyo oneo no ref dflt title];
+      [intros _; exact I|].
+    cbn [conv classify_s].
+    destruct (classify _ _ _ _ _ _ _ _ _ _ _ _ _ _ _ _ _ _ _ _ _ _ _ _) as [[[|] k]|]; try (intros _; exact I).
+    destruct k; try (intros _; exact I); cbn [conv_node conv_kind].
+    - destruct (type_name cls nm); [|discriminate]. unfold mk_enum.
+      destruct (Sanitize.variant_idents cls raws); try discriminate. intro H. injection H as <- _. discriminate.
+    - destruct (type_name cls nm); [|discriminate]. destruct (conv_props _ _ _ _ _ _); [|discriminate].
+      destruct p as [ps sa]. destruct (Sanitize.unique _); [|discriminate]. intro H. injection H as <- _. discriminate.
+  Qed.
+
+  Definition nD : N := N.of_nat (length D).
+
+  (* what holds after the definitions [done] (a prefix of the document) are converted *)
+  Record Inv (done : list (ustring * schema)) (s : st) : Prop := {
+    inv_wf : wf s;
+    inv_next : nD < st_next s;
+    inv_empty : forall i, N.of_nat (length done) < i -> i <= nD -> lk s i = None;
+    inv_names : forall n, In n (nkeys s) -> In n (flat_map (def_all_names cls) done);
+    inv_done : forall j d sch, nth_error done j = Some (d, sch) ->
+      (exists e, lk s (N.of_nat j + 1) = Some e) /\
+      forall T, ext s T -> DefsPop T -> covers re native T A sch false (TId (N.of_nat j + 1)) = true }.
+
+  Lemma conv_def_ok done d sch todo s0 s3 :
+    D = done ++ (d, sch) :: todo ->
+    conv_def cls (ref_id D) d sch (N.of_nat (length done) + 1) s0 = Some s3 ->
+    frag cls keys sch = true -> NoDup (all_names cls D) ->
+    Inv done s0 -> Inv (done ++ [(d, sch)]) s3.
+  Proof.
+    intros HD Hcd Hf Hnd [Hw Hnx Hem Hnm Hdn].
+    set (t := N.of_nat (length done) + 1) in *.
+    assert (Htn : t <= nD).
+    { unfold t, nD. rewrite HD, app_length. cbn [length]. lia. }
+    unfold all_names in Hnd. rewrite HD, flat_map_app in Hnd. cbn [flat_map] in Hnd.
+    destruct (def_all_names_spec d sch) as [Hincl Hndn].
+    assert (Hnd1 : NoDup (def_all_names cls (d, sch))) by exact (NoDup_app_l _ _ (NoDup_app_r _ _ Hnd)).
+    assert (Hdisj : forall x, In x (def_all_names cls (d, sch)) -> ~ In x (nkeys s0)).
+    { intros x Hx Hin. apply (NoDup_app_disj _ _ x Hnd (Hnm x Hin)). apply in_or_app. left. exact Hx. }
+    unfold conv_def in Hcd.
+    destruct (cvf sch (NRequired d) s0) as [[te s1]|] eqn:Hc; [|discriminate].
+    destruct (conv_P sch Hf (NRequired d) s0 te s1 Hc Hw (Hndn Hnd1)) as (Hw1 & Hf1 & (L & HL & Hns1) & HG).
+    { intros x Hx. apply Hdisj. apply Hincl. right. exact Hx. }
+    (* the entry stored at t, and the state before it is stored *)
+    assert (Hent : exists ent s2 en,
+      Some s3 = Some (mkSt (st_next s2) (put t (mkEntry ent []) (st_ents s2)) ((en, t) :: st_names s2)
+                           (st_types s2) (st_json s2)) /\
+      wf s2 /\ frame s0 s2 /\ names_sub s0 s2 (names_of cls sch (NRequired d)) /\
+      In en (san d :: names_of cls sch (NRequired d)) /\
+      forall T, ext s2 T -> DefsPop T -> get T t = Some (mkEntry ent []) ->
+                Gs T sch FT false t = true).
+    { assert (Hnamed : forall n, det_name te = Some n ->
+        match det_name te with None => None
+        | Some en => Some (mkSt (st_next s1) (put t (mkEntry te []) (st_ents s1)) ((en, t) :: st_names s1)
+                                (st_types s1) (st_json s1)) end = Some s3 ->
+        exists ent s2 en,
+          Some s3 = Some (mkSt (st_next s2) (put t (mkEntry ent []) (st_ents s2)) ((en, t) :: st_names s2)
+                               (st_types s2) (st_json s2)) /\
+          wf s2 /\ frame s0 s2 /\ names_sub s0 s2 (names_of cls sch (NRequired d)) /\
+          In en (san d :: names_of cls sch (NRequired d)) /\
+          forall T, ext s2 T -> DefsPop T -> get T t = Some (mkEntry ent []) -> Gs T sch FT false t = true).
+      { intros n Hn H. rewrite Hn in H. exists te, s1, n. split; [symmetry; exact H|].
+        split; [exact Hw1|]. split; [exact Hf1|]. split.
+        - eapply names_sub_weaken; [exact Hns1|]. rewrite HL. apply incl_appr, incl_refl.
+        - split.
+          + right. rewrite HL. unfold own_of. rewrite Hn. left. reflexivity.
+          + intros T He Hp Hg. unfold FT. apply (HG T He Hp t).
+            destruct te; try discriminate Hn; exact Hg. }
+      assert (Halias : forall i s2, assign te s1 = (i, s2) -> det_name te = None ->
+        match te with DReference _ => False | _ => True end ->
+        Some (mkSt (st_next s2) (put t (mkEntry (DNewtype (san d) None i CNone) []) (st_ents s2))
+                   ((san d, t) :: st_names s2) (st_types s2) (st_json s2)) = Some s3 ->
+        exists ent s2 en,
+          Some s3 = Some (mkSt (st_next s2) (put t (mkEntry ent []) (st_ents s2)) ((en, t) :: st_names s2)
+                               (st_types s2) (st_json s2)) /\
+          wf s2 /\ frame s0 s2 /\ names_sub s0 s2 (names_of cls sch (NRequired d)) /\
+          In en (san d :: names_of cls sch (NRequired d)) /\
+          forall T, ext s2 T -> DefsPop T -> get T t = Some (mkEntry ent []) -> Gs T sch FT false t = true).
+      { intros i s2 Ha Hn Hnr H.
+        assert (Hfresh : forall n, det_name te = Some n -> ~ In n (nkeys s1)) by (intros n Hn'; congruence).
+        destruct (assign_ok te s1 i s2 Ha Hw1 Hfresh) as (Hw2 & Hf2 & Hr2 & _ & Hns2).
+        rewrite Hn in Hns2.
+        exists (DNewtype (san d) None i CNone), s2, (san d). split; [symmetry; exact H|].
+        split; [exact Hw2|]. split; [eapply frame_trans; eassumption|]. split.
+        - intros x Hx. destruct (Hns2 x Hx) as [Hx'|[]]. destruct (Hns1 x Hx') as [Hx''|Hx''].
+          + left. exact Hx''.
+          + right. rewrite HL. apply in_or_app. right. exact Hx''.
+        - split; [left; reflexivity|].
+          intros T He Hp Hg. unfold FT. apply (Gs_newtype T sch 5 false t _ _ i Hf (get_det_of _ _ _ _ Hg)).
+          apply (HG T (ext_frame _ _ T Hw1 Hf2 He) Hp i (realizes_ext _ _ _ _ Hr2 He) 3%nat false). }
+      destruct te as [? ? ? ? ? ?|? ? ? ?|? ? ? ?|? ? ?|?|?|?|? ?|?|? ?|?| | |?|?| | |r0];
+        try (destruct (assign _ s1) as [i s2] eqn:Ha; cbn [det_name] in Hcd;
+             exact (Halias i s2 eq_refl eq_refl I Hcd));
+        try (exact (Hnamed _ eq_refl Hcd)).
+      (* DReference r: newtype around the referenced definition *)
+      cbn [det_name] in Hcd.
+      exists (DNewtype (san d) None r0 CNone), s1, (san d). split; [symmetry; exact Hcd|].
+      split; [exact Hw1|]. split; [exact Hf1|]. split.
+      - eapply names_sub_weaken; [exact Hns1|]. rewrite HL. apply incl_appr, incl_refl.
+      - split; [left; reflexivity|].
+        intros T He Hp Hg. unfold FT. apply (Gs_newtype T sch 5 false t _ _ r0 Hf (get_det_of _ _ _ _ Hg)).
+        apply (HG T He Hp r0 eq_refl 3%nat false). }
+    destruct Hent as (ent & s2 & en & Hs3 & Hw2 & Hf2 & Hns2 & Hen & HG2).
+    injection Hs3 as ->.
+    assert (Hnx2 : nD < st_next s2) by (destruct Hf2 as [Hx _]; lia).
+    assert (Ht2 : lk s2 t = None).
+    { destruct Hf2 as [_ Hy]. rewrite Hy by lia. apply Hem; [unfold t; lia|exact Htn]. }
+    assert (Hlk3 : forall i, lk (mkSt (st_next s2) (put t (mkEntry ent []) (st_ents s2)) ((en, t) :: st_names s2)
+                                     (st_types s2) (st_json s2)) i
+                             = if i =? t then Some (mkEntry ent []) else lk s2 i).
+    { intro i. unfold lk. cbn [st_ents]. apply lookup_put. }
+    assert (Hext3 : forall T, ext (mkSt (st_next s2) (put t (mkEntry ent []) (st_ents s2)) ((en, t) :: st_names s2)
+                                        (st_types s2) (st_json s2)) T -> ext s2 T).
+    { intros T He i e Hi. apply He. rewrite Hlk3. destruct (i =? t) eqn:E; [|exact Hi].
+      apply N.eqb_eq in E. subst i. rewrite Ht2 in Hi. discriminate. }
+    split.
+    - (* wf *)
+      split.
+      + intros i e. rewrite Hlk3. cbn [st_next]. destruct (i =? t) eqn:E.
+        * apply N.eqb_eq in E. subst i. intros _. lia.
+        * apply (wf_lt s2 Hw2).
+      + intros d' j Hin. cbn [st_types] in Hin. rewrite Hlk3.
+        pose proof (wf_types s2 Hw2 d' j Hin) as H.
+        destruct (j =? t) eqn:E; [|exact H]. apply N.eqb_eq in E. subst j. rewrite Ht2 in H. discriminate.
+    - cbn [st_next]. exact Hnx2.
+    - intros i Hi1 Hi2. rewrite Hlk3. rewrite app_length in Hi1. cbn [length] in Hi1.
+      destruct (i =? t) eqn:E; [apply N.eqb_eq in E; unfold t in E; lia|].
+      destruct Hf2 as [_ Hy]. rewrite Hy by lia. apply Hem; [lia|exact Hi2].
+    - intros x Hx. unfold nkeys in Hx. cbn [st_names map fst] in Hx. rewrite flat_map_app. cbn [flat_map].
+      rewrite app_nil_r. apply in_or_app.
+      destruct Hx as [<-|Hx]; [right; apply Hincl; exact Hen|].
+      destruct (Hns2 x Hx) as [H|H]; [left; apply Hnm; exact H|right; apply Hincl; right; exact H].
+    - intros j d' sch' Hnth.
+      destruct (Nat.lt_ge_cases j (length done)) as [Hj|Hj].
+      + rewrite nth_error_app1 in Hnth by exact Hj.
+        destruct (Hdn j d' sch' Hnth) as [(e & He0) HC]. split.
+        * exists e. rewrite Hlk3.
+          destruct (N.of_nat j + 1 =? t) eqn:E; [apply N.eqb_eq in E; unfold t in E; lia|].
+          exact (frame_keeps s0 s2 _ _ Hw Hf2 He0).
+        * intros T He Hp. apply HC; [|exact Hp]. eapply ext_frame; [exact Hw|exact Hf2|]. apply Hext3. exact He.
+      + rewrite nth_error_app2 in Hnth by exact Hj.
+        destruct (j - length done)%nat as [|j'] eqn:Hjj; [|destruct j'; discriminate].
+        cbn [nth_error] in Hnth. injection Hnth as <- <-.
+        assert (Hjt : N.of_nat j + 1 = t) by (unfold t; lia). rewrite Hjt. split.
+        * eexists. rewrite Hlk3, N.eqb_refl. reflexivity.
+        * intros T He Hp. rewrite (covers_frag_Gs T sch false t Hf). apply (HG2 T (Hext3 T He) Hp).
+          apply He. rewrite Hlk3, N.eqb_refl. reflexivity.
+  Qed.
+
+  Lemma conv_defs_ok : forall todo done s0 sf,
+    D = done ++ todo ->
+    conv_defs cls (ref_id D) todo (N.of_nat (length done) + 1) s0 = Some sf ->
+    forallb (fun kv => frag cls keys (snd kv)) todo = true -> NoDup (all_names cls D) ->
+    Inv done s0 -> Inv D sf.
+  Proof.
+    induction todo as [|[d sch] todo IH]; intros done s0 sf HD Hc Hf Hnd HI.
+    - cbn [conv_defs] in Hc. injection Hc as <-. rewrite app_nil_r in HD. rewrite HD. exact HI.
+    - cbn [conv_defs] in Hc.
+      destruct (conv_def cls (ref_id D) d sch (N.of_nat (length done) + 1) s0) as [s1|] eqn:Hcd; [|discriminate].
+      cbn [forallb snd] in Hf. apply andb_true_iff in Hf. destruct Hf as [Hf1 Hf2].
+      pose proof (conv_def_ok done d sch todo s0 s1 HD Hcd Hf1 Hnd HI) as HI1.
+      apply (IH (done ++ [(d, sch)]) s1 sf); [rewrite <- app_assoc; exact HD| |exact Hf2|exact Hnd|exact HI1].
+      rewrite app_length. cbn [length].
+      replace (N.of_nat (length done + 1) + 1) with (N.of_nat (length done) + 1 + 1) by lia. exact Hc.
+  Qed.
+
+  Lemma ref_index_nth : forall (l : defs) r i0 i,
+    ref_index l r i0 = Some i -> exists j kv, nth_error l j = Some kv /\ i = i0 + N.of_nat j.
+  Proof.
+    induction l as [|[k s] l IH]; intros r i0 i H; cbn [ref_index] in H; [discriminate|].
+    destruct (ustr_eqb r k).
+    - injection H as <-. exists 0%nat, (k, s). split; [reflexivity|lia].
+    - destruct (IH r (i0 + 1) i H) as (j & kv & Hn & Hi). exists (S j), kv. split; [exact Hn|lia].
+  Qed.
+
+  Lemma pairs_from_nth : forall (l : defs) i0 p,
+    In p (pairs_from l i0) -> exists j sch, nth_error l j = Some (fst p, sch) /\ snd p = i0 + N.of_nat j.
+  Proof.
+    induction l as [|[k s] l IH]; intros i0 p H; cbn [pairs_from] in H; [destruct H|].
+    destruct H as [<-|H].
+    - exists 0%nat, s. split; [reflexivity|cbn [snd]; lia].
+    - destruct (IH (i0 + 1) p H) as (j & sch & Hn & Hi). exists (S j), sch. split; [exact Hn|lia].
+  Qed.
+
+  Lemma assoc_nth {X} : forall (l : list (ustring * X)) j k x,
+    NoDup (map fst l) -> nth_error l j = Some (k, x) -> assoc k l = Some x.
+  Proof.
+    induction l as [|[k' x'] l IH]; intros j k x Hnd Hn; [destruct j; discriminate|].
+    cbn [map fst] in Hnd. inversion Hnd as [|? ? Hni Hnd']; subst. cbn [assoc].
+    destruct j as [|j].
+    - cbn in Hn. injection Hn as -> ->. rewrite ustr_eqb_refl. reflexivity.
+    - cbn [nth_error] in Hn. destruct (ustr_eqb k k') eqn:E.
+      + apply ustr_eqb_eq in E. subst k'. exfalso. apply Hni.
+        apply (in_map fst) in Hn || (apply nth_error_In in Hn; apply (in_map fst) in Hn). exact Hn.
+      + apply (IH j); assumption.
+  Qed.
+
+  Theorem convert_covers T :
+    in_frag cls D = true -> convert_doc cls D = Some T ->
+    covers_all re native D T (pairs_of D) = true.
+  Proof.
+    intros Hin Hc. unfold in_frag in Hin.
+    apply andb_true_iff in Hin. destruct Hin as [Hin _].
+    apply andb_true_iff in Hin. destruct Hin as [Hin Hun].
+    apply andb_true_iff in Hin. destruct Hin as [Hin Hfr].
+    apply andb_true_iff in Hin. destruct Hin as [Hks _].
+    apply unique_true_iff in Hun.
+    unfold convert_doc in Hc. destruct (negb (Sanitize.unique (def_names cls D))); [discriminate|].
+    destruct (conv_defs cls (ref_id D) D 1 _) as [sf|] eqn:Hcd; [|discriminate]. injection Hc as <-.
+    assert (HI0 : Inv [] (mkSt (1 + N.of_nat (length D)) [] [] [] false)).
+    { split.
+      - split; [intros i e H; discriminate H|intros d i []].
+      - cbn [st_next]. unfold nD. lia.
+      - intros i _ _. reflexivity.
+      - intros n [].
+      - intros j d sch H. destruct j; discriminate H. }
+    pose proof (conv_defs_ok D [] _ sf eq_refl Hcd Hfr Hun HI0) as [Hw Hnx Hem Hnm Hdn].
+    assert (He : ext sf (space_of sf)) by (intros i e H; exact H).
+    assert (Hp : DefsPop (space_of sf)).
+    { intros r i Hr. unfold ref_id in Hr. destruct (ref_index_nth D r 1 i Hr) as (j & [d sch] & Hn & ->).
+      destruct (Hdn j d sch Hn) as [(e & Hl) _]. exists (e_det e). unfold get_det.
+      replace (1 + N.of_nat j) with (N.of_nat j + 1) by lia. rewrite (He _ _ Hl). reflexivity. }
+    unfold covers_all. apply forallb_forall. intros p Hpin. unfold pairs_of in Hpin.
+    destruct (pairs_from_nth D 1 p Hpin) as (j & sch & Hn & Hs).
+    unfold resolve_ref. rewrite (assoc_nth D j (fst p) sch (keys_sorted_NoDup _ Hks) Hn).
+    destruct (Hdn j (fst p) sch Hn) as [_ HC]. rewrite Hs.
+    replace (1 + N.of_nat j) with (N.of_nat j + 1) by lia. apply HC; assumption.
+  Qed.
 End Main.
